@@ -195,7 +195,7 @@ def main():
         "notes": "All claims are at level 'other': each check decides structural necessary conditions of its property for all paths/call sites of the loaded program, "
                  "not the quantified behaviour. Violations are keyed by rule+construct; KNOWN_FINDINGS.txt lists repaired (fixed:) and open defects. "
                  "thorough = quick + additional GOOS build configurations + replay of the mutant and benign corpora and of the independently written seeded changes for that property (self-test of the rules, recorded in the evidence). "
-                 "Corpora: mutants/ (one-instance breaks incl. the reverts of all 17 fix: commits), benign/, seeded/ (120 property-breaking changes by sub-agents), refactors/ (161 behaviour-preserving refactorings by sub-agents; the 8 that still raise an alarm are documented as limits in DESIGN.md section 5).",
+                 "Corpora: mutants/ (one-instance breaks incl. the reverts of all 17 fix: commits), benign/, seeded/ (180 property-breaking changes by sub-agents), refactors/ (201 behaviour-preserving refactorings by sub-agents; the 9 that still raise an alarm are documented as limits in DESIGN.md section 5).",
         "not_applicable": na,
     }
     with open(os.path.join(VERIF, "MANIFEST.json"), "w") as fh:
